@@ -20,7 +20,7 @@ ASSUMPTIONS = ['|p| <= 10, rotation angle <= pi-1e-3']
 RULE = ('poses from pose classes with positions up to 10 (mirror planes / reference frames away from the origin), non-collinear point triples, deltas in (0,1], step counts 2..200, '
         'point counts 1..2000, angles in [-50,50]; distinct = distinct (function, input); non-trivial = rotation part non-zero or position non-zero')
 SAMPLED = ['closeArcGap inside the 1e-6 cut-off band of the step rotation (outside it, advancing by exactly delta in arc distance is a theorem)',
-           'chain / numerical Jacobians equal the analytic ones (implementation only, 1e-5)', 'rotationFromVector (optimiser, 1e-5)']
+           'numerical Jacobian equals the analytic one (central differences on the implementation, 1e-5); chainJacobian is tied to the model of JacobianSpace (same recursion), whose column formula and derivative property are C06 theorems', 'rotationFromVector (optimiser, 1e-5)']
 
 
 def pose6(rnd, scale=10.0):
@@ -200,6 +200,9 @@ def run(res, tier, seed, driver_ok):
             thv = np.array([rnd.uniform(-3, 3) for _ in range(nj)])
             Jc = fsr.chainJacobian(S, thv)
             Js = mr.JacobianSpace(np.ascontiguousarray(S), thv)
+            # chainJacobian is the same recursion as JacobianSpace (T <- T e^{[S]theta}, column = Ad(T) S): it is tied to the SAME model
+            # function, so the C06 theorems (column formula, derivative of FK) are about it too
+            corr('mr.jacobianspace %s %s %s' % (C.f2h(nj), ' '.join(C.f2h(x) for x in S.T.reshape(-1)), ' '.join(C.f2h(x) for x in thv)), np.asarray(Jc).T.reshape(-1), 1e-9)
             if np.max(np.abs(Jc - Js)) > 1e-8:
                 bad('chainJacobian', 'chain Jacobian differs from the analytic space Jacobian', {'screws': S.T.tolist(), 'theta': thv.tolist()}, G.maxdiff(Jc, Js))
             f = lambda x: np.array([math.sin(x[0]) * x[1], x[0] ** 2 + x[2], math.cos(x[2]) * x[1]])
